@@ -49,6 +49,8 @@ StreamType(op, lam, inType) ==
 (* the stream an action creates, per the abstract design; <<>> if it creates none *)
 Created(a, gs, n) ==
     CASE a.act = "NewDataset" -> <<G(Fn("EventDataset", <<>>), a.op, n + 1, NoQ)>>
+      [] a.act = "NewNameRoot" -> <<G(Name("e"), "Any", 0, NoQ)>>
+      [] a.act = "NewSkim" -> <<G(Fn("EventDataset", <<gs[a.s].view>>), a.op, n + 1, NoQ)>>
       [] a.act = "Derive" ->
            <<G(Fn(a.op, <<gs[a.s].view, Emitted(a.t, gs[a.s].type)>>), StreamType(a.op, a.t, gs[a.s].type),
                gs[a.s].ds, gs[a.s].qmd)>>
@@ -112,7 +114,7 @@ Next ==
            cl == Clauses(r, gs, cs, n)
        IN /\ g' = gs \o Created(r.a, gs, n)
           /\ calls' = IF r.a.act \in {"ValueStart", "ValueSync"} THEN Append(cs, r.a) ELSE cs
-          /\ nds' = IF r.a.act = "NewDataset" THEN n + 1 ELSE n
+          /\ nds' = IF r.a.act \in {"NewDataset", "NewSkim"} THEN n + 1 ELSE n
           /\ Serialize(ToJson([tid |-> r.tid, step |-> r.step, ok |-> cl = <<>>, clauses |-> cl]) \o "\n",
                        IOEnv.OUT_FILE, AppendOpt).exitValue = 0
     /\ l' = l + 1
